@@ -1365,7 +1365,25 @@ impl Server {
         
         // Log to AOF for write commands
         if let Some(aof) = &self.aof_engine {
-            if self.is_write_command(&command_name) {
+            if command_name == "EVALSHA" {
+                // The script cache is not part of the log: EVALSHA is recorded as the EVAL of the
+                // script's source, which can be re-executed on a server that never saw the script
+                let script = match parts.get(1) {
+                    Some(RespFrame::BulkString(Some(sha))) => std::str::from_utf8(sha).ok()
+                        .and_then(|sha| self.script_cache.get(sha).ok().flatten()),
+                    _ => None,
+                };
+                if let Some(script) = script {
+                    let mut eval_parts = vec![
+                        RespFrame::BulkString(Some(Arc::new(b"EVAL".to_vec()))),
+                        RespFrame::BulkString(Some(Arc::new(script.into_bytes()))),
+                    ];
+                    eval_parts.extend_from_slice(&parts[2..]);
+                    if let Err(e) = aof.append_command_in_db(db, &eval_parts) {
+                        eprintln!("Failed to append to AOF: {}", e);
+                    }
+                }
+            } else if self.is_write_command(&command_name) {
                 if let Err(e) = aof.append_command_in_db(db, parts) {
                     eprintln!("Failed to append to AOF: {}", e);
                 }
